@@ -29,7 +29,19 @@ Theorem C15_model_predicts_clean : forall c,
   ok_trace empty (c_ops c) = true -> errors (run empty (c_ops c)) = [].
 Proof. exact model_predicts_clean. Qed.
 
+(* Command template: a backup (fresh packs, one index file listing exactly them, then a snapshot that
+   reaches only blobs indexed before or by that file) follows the discipline from any state that
+   satisfies the invariant; with C15_produced_is_clean every crashed prefix of it keeps check clean. *)
+Theorem C15_backup_follows_discipline : forall R ps i s needs,
+  inv R = true ->
+  NoDup (map fst ps) -> (forall p, In p ps -> find (s_packs R) (fst p) = None) ->
+  find (s_idx R) i = None ->
+  (forall h, In h needs -> in_index (s_idx R) h = true \/ in_body ps h = true) ->
+  ok_trace R (backup_ops ps i s needs) = true.
+Proof. exact backup_follows_discipline. Qed.
+
 Print Assumptions C15_inv_step.
+Print Assumptions C15_backup_follows_discipline.
 Print Assumptions C15_produced_is_clean.
 Print Assumptions C15_hints_only.
 Print Assumptions C15_inv_clean.
